@@ -32,7 +32,8 @@ CONSTANTS
     Ops,         \* enabled operations
     InitBin,     \* binarizer installed at construction (ts only): "none" | "thr" | "flip" | "ge2"
     NewBins,     \* binarizers add_arm may install ("keep" = none given)
-    Feat,        \* [Labels -> sequence of Int] arm features for warm_start
+    FeatSets,    \* sequence of feature maps [Labels -> sequence of Int]; a warm_start passes one of them (a caller may
+                 \* change its feature dictionary between two calls)
     Quantiles,   \* set of rationals <<n, d>> in [0, 1]
     RejectKinds, \* fault classes to inject
     QueryRows    \* numbers of context rows a query may carry (0 = no contexts)
@@ -183,16 +184,16 @@ RemoveArm(a) ==
 Dot(u, v)  == ISumSeq([i \in DOMAIN u |-> u[i] * v[i]])
 ISqrt(n)   == CHOOSE k \in 0..n : k * k = n            \* features are chosen with integer norms
 SelfDist   == <<999999, 1>>
-CosDist0(x, y) ==
+CosDist0(fs, x, y) ==
     IF x = y THEN SelfDist
-    ELSE LET nx == ISqrt(Dot(Feat[x], Feat[x]))  ny == ISqrt(Dot(Feat[y], Feat[y]))
+    ELSE LET nx == ISqrt(Dot(FeatSets[fs][x], FeatSets[fs][x]))  ny == ISqrt(Dot(FeatSets[fs][y], FeatSets[fs][y]))
          IN  IF nx = 0 \/ ny = 0 THEN SelfDist       \* cosine of a zero vector is NaN -> self distance
-             ELSE RSub(ROne, RFrac(Dot(Feat[x], Feat[y]), nx * ny))
-CosTab == [x \in Labels |-> [y \in Labels |-> CosDist0(x, y)]]   \* constant: evaluated once by TLC
-CosDist(x, y) == CosTab[x][y]
+             ELSE RSub(ROne, RFrac(Dot(FeatSets[fs][x], FeatSets[fs][y]), nx * ny))
+CosTab == [fs \in DOMAIN FeatSets |-> [x \in Labels |-> [y \in Labels |-> CosDist0(fs, x, y)]]]   \* constant: evaluated once by TLC
+CosDist(fs, x, y) == CosTab[fs][x][y]
 
-Closest(x) == RMinSeq([i \in DOMAIN arms |-> CosDist(x, arms[i])])
-ClosestList == SelectSeq([i \in DOMAIN arms |-> Closest(arms[i])], LAMBDA d : d # SelfDist)
+Closest(fs, x) == RMinSeq([i \in DOMAIN arms |-> CosDist(fs, x, arms[i])])
+ClosestList(fs) == SelectSeq([i \in DOMAIN arms |-> Closest(fs, arms[i])], LAMBDA d : d # SelfDist)
 
 ColdArms    == SelectSeq(arms, LAMBDA a : ~status[a].tr /\ ~status[a].wm)
 TrainedArms == SelectSeq(arms, LAMBDA a : status[a].tr)
@@ -200,40 +201,40 @@ SourceArms  == IF "WarmFromWarm" \in Dev THEN SelectSeq(arms, LAMBDA a : status[
                ELSE TrainedArms
 
 (* first arm of the sequence cand that minimises the distance from c *)
-RECURSIVE ArgMinFrom(_, _, _, _)
-ArgMinFrom(c, cand, i, best) ==
+RECURSIVE ArgMinFrom(_, _, _, _, _)
+ArgMinFrom(fs, c, cand, i, best) ==
     IF i > Len(cand) THEN best
-    ELSE ArgMinFrom(c, cand, i + 1,
-                    IF RLt(CosDist(c, cand[i]), CosDist(c, best)) THEN cand[i] ELSE best)
-NearestSource(c) == ArgMinFrom(c, SourceArms, 2, SourceArms[1])
+    ELSE ArgMinFrom(fs, c, cand, i + 1,
+                    IF RLt(CosDist(fs, c, cand[i]), CosDist(fs, c, best)) THEN cand[i] ELSE best)
+NearestSource(fs, c) == ArgMinFrom(fs, c, SourceArms, 2, SourceArms[1])
 
-QuantileExact(q) ==     \* the quantile falls on a sample point (no interpolation)
-    LET pos == RMul(R(Len(ClosestList) - 1), q) IN pos[2] = 1
+QuantileExact(fs, q) ==     \* the quantile falls on a sample point (no interpolation)
+    LET pos == RMul(R(Len(ClosestList(fs)) - 1), q) IN pos[2] = 1
 
-WarmMap(q) ==           \* cold arm -> source arm
-    LET thr == RQuantile(ClosestList, q)
+WarmMap(fs, q) ==           \* cold arm -> source arm
+    LET thr == RQuantile(ClosestList(fs), q)
         ok(c) == /\ Len(SourceArms) > 0
                  /\ IF "WarmThresholdStrict" \in Dev
-                    THEN RLt(CosDist(c, NearestSource(c)), thr)
-                    ELSE RLeq(CosDist(c, NearestSource(c)), thr)
+                    THEN RLt(CosDist(fs, c, NearestSource(fs, c)), thr)
+                    ELSE RLeq(CosDist(fs, c, NearestSource(fs, c)), thr)
         W == {c \in RangeS(ColdArms) : ok(c)}
-    IN  [c \in W |-> NearestSource(c)]
+    IN  [c \in W |-> NearestSource(fs, c)]
 
 (* with an interpolated threshold the float comparison of a distance that equals the
    threshold exactly is not determined by the documentation: such calls are not generated *)
-WarmUnambiguous(q) ==
-    \/ QuantileExact(q)
-    \/ LET thr == RQuantile(ClosestList, q)
+WarmUnambiguous(fs, q) ==
+    \/ QuantileExact(fs, q)
+    \/ LET thr == RQuantile(ClosestList(fs), q)
        IN  \A c \in RangeS(ColdArms) :
-              Len(SourceArms) > 0 => CosDist(c, NearestSource(c)) # thr
+              Len(SourceArms) > 0 => CosDist(fs, c, NearestSource(fs, c)) # thr
 
-WarmStart(q) ==
+WarmStart(q, fs) ==
     /\ "warm_start" \in Ops
     /\ LP # "random"
-    /\ q \in Quantiles
-    /\ Len(ClosestList) > 0
-    /\ WarmUnambiguous(q)
-    /\ LET wm == WarmMap(q)
+    /\ q \in Quantiles /\ fs \in DOMAIN FeatSets
+    /\ Len(ClosestList(fs)) > 0
+    /\ WarmUnambiguous(fs, q)
+    /\ LET wm == WarmMap(fs, q)
            ac == [a \in RangeS(arms) |-> IF a \in DOMAIN wm THEN acc[wm[a]] ELSE acc[a]]
        IN  /\ acc' = ac
            /\ expv' = (CASE LP = "softmax" -> SoftmaxAll(arms, ac)
@@ -242,7 +243,7 @@ WarmStart(q) ==
                            IF a \in DOMAIN wm THEN [status[a] EXCEPT !.wm = TRUE, !.by = wm[a]] ELSE status[a]]
            /\ base' = [a \in RangeS(arms) |-> IF a \in DOMAIN wm THEN Obs(wm[a]) ELSE base[a]]
            /\ born' = [a \in RangeS(arms) |-> IF a \in DOMAIN wm THEN Len(hist) ELSE born[a]]
-           /\ last' = [op |-> "warm_start", q |-> q, map |-> wm]
+           /\ last' = [op |-> "warm_start", q |-> q, fs |-> fs, map |-> wm]
     /\ UNCHANGED <<arms, fitted, hist, total, bin>>
 
 ---------------------------------------------------------------------------
@@ -283,7 +284,7 @@ Next ==
     \/ \E b \in Batches : Fit(b) \/ PartialFit(b)
     \/ \E a \in Labels, nb \in NewBins : AddArm(a, nb)
     \/ \E a \in Labels : RemoveArm(a)
-    \/ \E q \in Quantiles : WarmStart(q)
+    \/ \E q \in Quantiles, fs \in DOMAIN FeatSets : WarmStart(q, fs)
     \/ \E m \in QueryRows : Query("predict", m) \/ Query("predict_expectations", m)
     \/ \E k \in RejectKinds : Reject(k)
 
@@ -354,7 +355,7 @@ Prop_C13_WarmStart ==
               /\ status[wm[c]].tr
               /\ acc'[c] = acc[wm[c]]
               /\ status'[c] = [tr |-> FALSE, wm |-> TRUE, by |-> wm[c]]
-              /\ \A w \in RangeS(TrainedArms) : RLeq(CosDist(c, wm[c]), CosDist(c, w))
+              /\ \A w \in RangeS(TrainedArms) : RLeq(CosDist(last'.fs, c, wm[c]), CosDist(last'.fs, c, w))
          /\ arms' = arms /\ total' = total /\ fitted' = fitted
       ]_vars
 
@@ -363,20 +364,21 @@ Prop_C13_WarmStart ==
 Prop_C13_Complete ==
     [][last'.op = "warm_start" =>
          LET q   == last'.q
-             thr == RQuantile(ClosestList, q)
+             thr == RQuantile(ClosestList(last'.fs), q)
          IN  \A c \in RangeS(ColdArms) :
-                (Len(TrainedArms) > 0 /\ \E w \in RangeS(TrainedArms) : RLeq(CosDist(c, w), thr))
+                (Len(TrainedArms) > 0 /\ \E w \in RangeS(TrainedArms) : RLeq(CosDist(last'.fs, c, w), thr))
                     => c \in DOMAIN last'.map
       ]_vars
 
 (* C13: the warmed set grows with the quantile; repeating the call changes nothing *)
 Inv_C13_Monotone ==
-    (Len(ClosestList) > 0) =>
-      \A q1, q2 \in Quantiles :
-         RLeq(q1, q2) => DOMAIN WarmMap(q1) \subseteq DOMAIN WarmMap(q2)
+    \A fs \in DOMAIN FeatSets :
+      (Len(ClosestList(fs)) > 0) =>
+        \A q1, q2 \in Quantiles :
+           RLeq(q1, q2) => DOMAIN WarmMap(fs, q1) \subseteq DOMAIN WarmMap(fs, q2)
 
 Prop_C13_Idempotent ==
-    [][(last'.op = "warm_start" /\ last.op = "warm_start" /\ last'.q = last.q) =>
+    [][(last'.op = "warm_start" /\ last.op = "warm_start" /\ last'.q = last.q /\ last'.fs = last.fs) =>
           UNCHANGED modelVars]_vars
 
 (* C08 for queries, C09: the arm returned by predict is the first maximiser in arm order *)
